@@ -362,6 +362,23 @@ def _prescripts_ok(t):
     return True
 
 
+def test_cases():
+    """the MathML inputs of the repository's own tests (inputs only; those an XML parser reads without an entity table): labels
+    'test:<hash>'.  A <math> with several children is given the row MathML implies."""
+    import hashlib, testcorpus
+    out = []
+    for x in testcorpus.expressions():
+        try:
+            m = terms.parse_xml(x)
+        except Exception:
+            continue
+        if m.tag != "math" or not m.kids:
+            continue
+        t = m.kids[0] if len(m.kids) == 1 else row(*m.kids)
+        out.append(("test:" + hashlib.sha1(x.encode()).hexdigest()[:10], t))
+    return out
+
+
 def merge_cases():
     """token sequences that one of the merging / re-reading heuristics of canonicalization takes for ONE thing (arc + sin, | |, digit
     groups, primes, dots, letters of a function name, element symbols, d x, operator digraphs, a token and a blank) as the complete
@@ -442,6 +459,7 @@ def _gen_cases(tier):
             out.append((f"lone:U+{ord(c):04X}:{kind}:numerator", el("mfrac", tkn(), mn("2"))))
             out.append((f"lone:U+{ord(c):04X}:{kind}:exponent", el("msup", mi("x"), tkn())))
     out += merge_cases()
+    out += test_cases()
     # level 1: one deviation at every position
     dev_shapes = terms.spine_shapes(1) if tier == "quick" else terms.spine_shapes(2)
     for sh in dev_shapes:
